@@ -226,10 +226,7 @@ class FillInto(object):
             element.fill(result)
 
     def __repr__(self):
-        if self._explicit:
-            return "FillInto({})".format(repr(self._el))
-        else:
-            return repr(self._el)
+        return "FillInto({})".format(repr(self._el))
 
 
 class FillRequest(object):
